@@ -133,6 +133,14 @@ impl NetcodeServerTransport {
     }
 }
 
+#[cfg(renet_verif)]
+impl NetcodeServerTransport {
+    /// Read-only view of the netcode layer, for the verification harness.
+    pub fn verif_netcode_server(&self) -> &NetcodeServer {
+        &self.netcode_server
+    }
+}
+
 fn handle_server_result(server_result: ServerResult, socket: &UdpSocket, reliable_server: &mut RenetServer) {
     let send_packet = |packet: &[u8], addr: SocketAddr| {
         if let Err(err) = socket.send_to(packet, addr) {
